@@ -98,10 +98,16 @@ def grammar_case(rng):
         args['reordering'] = REORD[reord]
     if mo is not None:
         args['markov_opts'] = mo
-    with quiet():
-        res = grammar.binarize(g, **args)
-    out = gram.enc_grammar(res)
     genc = gram.enc_grammar(g)
+    try:
+        with quiet():
+            res = grammar.binarize(g, **args)
+    except Exception as e:
+        l = Line("corr", "binarize", [reord or "none", gram.enc_markov(mo), genc], proto.err_name(e))
+        l2 = Line("pred", "P.C07.unbin", [reord or "none", genc, genc], note="binarize raised %s: %s" % (type(e).__name__, e))
+        l2.expect = "binarization-must-not-fail"
+        return Case("treebank-grammar", {"trees": [proto.pretty_tree(t) for t in ts], "reordering": reord, "markov": mo}, [l, l2], nontrivial=True)
+    out = gram.enc_grammar(res)
     lines = [Line("corr", "binarize", [reord or "none", gram.enc_markov(mo), genc], out)]
     if mo is None:
         lines.append(Line("pred", "P.C07.unbin", [reord or "none", genc, out]))
